@@ -1,6 +1,7 @@
 package main
 
 import (
+	"syscall"
 	"fmt"
 	"go/types"
 	"strings"
@@ -166,6 +167,7 @@ func runC04(c *Check) {
 	c.MinInstances("C04-R4", 1)
 	c.Doc("C04-R13", "EO: from the success edge of Store.GetBlockData(Store.Height()+1) (a block saved before a crash) every path to a return of the production step passes Executor.ExecuteTxs: the stored block is taken over as it is, never refused on its content (the early-saved block is not yet signed).")
 	c.MinInstances("C04-R13", 1)
+	c.MinInstances("C04-R16", 1)
 
 	ruleRestartReconciliation(c, p, "C04-R2")
 	ruleCacheFiles(c, p, "C04-R5")
@@ -464,6 +466,7 @@ func ruleRestartReconciliation(c *Check, p *Prog, rule string) {
 
 // ruleCacheFiles (C04-R5).
 func ruleCacheFiles(c *Check, p *Prog, rule string) {
+	c.Doc("C04-R16", "GA: the cache writer's temporary file replaces whatever a crashed save left under that fixed name: it is created with a truncating open (os.Create / O_TRUNC), never exclusively (O_EXCL) unless the leftover is removed first — otherwise the first crash between create and rename makes every later save fail.")
 	cachePkg := rootPath + "/pkg/cache"
 	var creators, loaders []*ssa.Function
 	for _, fn := range p.Funcs {
@@ -645,6 +648,38 @@ func ruleCacheFiles(c *Check, p *Prog, rule string) {
 							detail = "the loader " + fnShort(l) + " opens " + trunc(pt.String(), 60) + ", the writer's temporary name (" + reads + "): that is the file a crash during a save leaves partial"
 						}
 					}
+				}
+			}
+		}
+		// C04-R16: the temporary name is fixed, and a crash between creating it and the rename leaves
+		// it behind. The next save must replace that leftover: an exclusive create (O_EXCL) fails on
+		// it at every later shutdown, and the caches on disk stay frozen at the crash.
+		if len(renames) > 0 {
+			for _, cr := range creates {
+				if CallName(cr) != "os.OpenFile" {
+					c.OK("C04-R16", fnShort(w)+" ⟂ temporary file replaces a leftover", fnName(w), p.InstrPos(cr.In), CallName(cr)+" truncates whatever is at the name", true)
+					continue
+				}
+				ft := ArgTerm(cr, 1)
+				var flags int64
+				known := ft != nil && ft.unconv().Op == "const"
+				if known {
+					if _, err := fmt.Sscan(ft.unconv().Name, &flags); err != nil {
+						known = false
+					}
+				}
+				isRemoveSame := func(n *Node) bool {
+					return (CallName(n) == "os.Remove" || CallName(n) == "os.RemoveAll") && ArgTerm(n, 0).String() == ArgTerm(cr, 0).String()
+				}
+				switch {
+				case !known:
+					c.Unk("C04-R16", fnShort(w)+" ⟂ temporary file replaces a leftover", fnName(w), p.InstrPos(cr.In), "the open flags are not a constant: "+trunc(ft.String(), 60))
+				case flags&int64(syscall.O_EXCL) != 0 && g.PathAvoiding([]*Node{g.Entry}, nodeSet([]*Node{cr}), isRemoveSame) != nil:
+					c.Bad("C04-R16", fnShort(w)+" ⟂ temporary file replaces a leftover", fnName(w), p.InstrPos(cr.In), "the temporary file is created exclusively (O_EXCL) and nothing removes a leftover first: the file a crash between create and rename leaves behind makes every later save fail, so the on-disk caches never change again", nil)
+				case flags&int64(syscall.O_EXCL) == 0 && flags&int64(syscall.O_TRUNC) == 0:
+					c.Bad("C04-R16", fnShort(w)+" ⟂ temporary file replaces a leftover", fnName(w), p.InstrPos(cr.In), "the temporary file is opened without O_TRUNC: a longer leftover of a crashed save keeps its tail, and the renamed file does not decode", nil)
+				default:
+					c.OK("C04-R16", fnShort(w)+" ⟂ temporary file replaces a leftover", fnName(w), p.InstrPos(cr.In), "leftover replaced (truncating open, or removed before an exclusive create)", true)
 				}
 			}
 		}
